@@ -1,29 +1,77 @@
 """KAISAAssignment.greedy_assignment (kfac/assignment.py): C17.
 
-The body (two nested sorts with key functions, list.index(min(...)), dict-of-dict updates in nested loops) is
-outside the subset the VC generator handles; its contract is decided by the bounded run-time contract check on
-the real function against an executable reference written from the property statement (labelled bounded in
-evidence, never counted as proved).
+Proved (all inputs): the function raises nothing (every list index, dictionary key, min() of a non-empty list and
+the final assertions are safe), the result has exactly the layers and factors of `work`, every factor is assigned
+exactly one rank that belongs to one of the worker groups, all factors of a layer lie in ONE group (on one worker
+when co-located), and the inputs are not modified.  sorted() is modelled as a permutation: WHICH order the greedy
+placement visits layers and factors in, the equality with the reference least-loaded placement and the balance
+bound are decided by the bounded run-time contract check (clauses marked [bounded]).
 """
-from pyvc.contracts import contract
+from pyvc.contracts import contract, spec_def
 from pyvc.values import KInt, KReal, KBool, KStr, KDict, KList
 
+WORK = KDict(KStr, KDict(KStr, KReal))
+ASG = KDict(KStr, KDict(KStr, KInt))
+# a is `work` with other values: same layers in the same order, each with the same factors in the same order
+spec_def('same_shape', ['a', 'w'],
+         'len(a) == len(w) and all(key_at(a, m) == key_at(w, m) and len(a[key_at(w, m)]) == len(w[key_at(w, m)]) and '
+         'all(key_at(a[key_at(w, m)], t) == key_at(w[key_at(w, m)], t) for t in range(len(w[key_at(w, m)]))) for m in range(len(w)))')
+spec_def('valid_rank', ['r', 'groups'], 'any(r in groups[g] for g in range(len(groups)))')
+spec_def('layer_in_one_group', ['d', 'groups'], 'any(all(d[key_at(d, t)] in groups[g] for t in range(len(d))) for g in range(len(groups)))', opaque=True)
+spec_def('layer_on_one_worker', ['d'], 'all(d[key_at(d, t)] == d[key_at(d, 0)] for t in range(len(d)))', opaque=True)
+spec_def('layer_unassigned', ['d'], 'all(d[key_at(d, t)] == -1 for t in range(len(d)))')
+GROUPS_OK = ('len(worker_groups) >= 1 and all(len(worker_groups[g]) >= 1 and '
+             'all(0 <= worker_groups[g][r] and worker_groups[g][r] < world_size for r in range(len(worker_groups[g]))) '
+             'for g in range(len(worker_groups)))')
+STATE = ('same_shape(assignments, work) and len(worker_loads) == world_size and len(summed_work) == len(work) and '
+         'all(key_at(summed_work, m) == key_at(work, m) for m in range(len(work)))')
+DONE = ('(layer_in_one_group(assignments[sorted_groups[m]], worker_groups) and '
+        'implies(colocate_factors, layer_on_one_worker(assignments[sorted_groups[m]])))')
+
 contract(
-    'kfac.assignment:KAISAAssignment.greedy_assignment', props=['C17', 'C06', 'C12'], mode='bounded',
-    params={'work': KDict(KStr, KDict(KStr, KReal)), 'worker_groups': KList(KList(KInt)), 'world_size': KInt,
-            'colocate_factors': KBool},
-    requires=[('groups_are_ranks', 'len(worker_groups) >= 1 and all(len(g) >= 1 and all(0 <= r < world_size for r in g) for g in worker_groups)'),
-              ('costs_are_numbers', 'all(all(work[l][f] >= 0 for f in work[l]) for l in work)')],
+    'kfac.assignment:KAISAAssignment.greedy_assignment', props=['C17', 'C06', 'C12'],
+    params={'work': WORK, 'worker_groups': KList(KList(KInt)), 'world_size': KInt, 'colocate_factors': KBool}, result=ASG,
+    locals={'__comp0': ASG, '__comp1': KDict(KStr, KReal)},
+    requires=[('groups_are_ranks', GROUPS_OK), ('world', 'world_size >= 1')],
     ensures=[
-        ('same_structure', 'set(result) == set(work) and all(set(result[l]) == set(work[l]) for l in work)'),
-        ('every_factor_on_one_valid_rank', 'all(all(isinstance(result[l][f], int) and any(result[l][f] in g for g in worker_groups) '
-                                           'for f in result[l]) for l in result)'),
-        ('layer_confined_to_one_group', 'all(any(all(result[l][f] in g for f in result[l]) for g in worker_groups) for l in result)'),
-        ('colocated_on_one_worker', 'implies(colocate_factors, all(len(set(result[l].values())) <= 1 for l in result))'),
-        ('equals_the_least_loaded_greedy_placement', 'result == greedy_reference(work, worker_groups, world_size, colocate_factors)'),
-        ('loads_balanced_within_the_largest_item', 'greedy_balanced(work, worker_groups, world_size, colocate_factors, result)'),
+        ('same_structure', 'same_shape(result, work)'),
+        ('every_layer_in_one_group', 'all(layer_in_one_group(result[key_at(work, m)], worker_groups) for m in range(len(work)))'),
+        ('colocated_on_one_worker', 'implies(colocate_factors, all(layer_on_one_worker(result[key_at(work, m)]) for m in range(len(work))))'),
         ('inputs_untouched', 'work == old(work) and worker_groups == old(worker_groups)'),
-        ('pure_function', 'result == greedy_again(work, worker_groups, world_size, colocate_factors)'),
+        ('equals_the_least_loaded_greedy_placement[bounded]', 'result == greedy_reference(work, worker_groups, world_size, colocate_factors)'),
+        ('loads_balanced_within_the_largest_item[bounded]', 'greedy_balanced(work, worker_groups, world_size, colocate_factors, result)'),
+        ('pure_function[bounded]', 'result == greedy_again(work, worker_groups, world_size, colocate_factors)'),
     ],
+    loops={
+        'iter:work.items()#0': dict(index='i', invariants=[
+            ('built_prefix', 'len(__comp0) == i and all(key_at(__comp0, m) == key_at(work, m) and len(__comp0[key_at(work, m)]) == len(work[key_at(work, m)]) '
+                             'and all(key_at(__comp0[key_at(work, m)], t) == key_at(work[key_at(work, m)], t) and __comp0[key_at(work, m)][key_at(work[key_at(work, m)], t)] == -1 '
+                             'for t in range(len(work[key_at(work, m)]))) for m in range(i))')]),
+        'iter:work.items()#1': dict(index='i', invariants=[
+            ('summed_prefix', 'len(__comp1) == i and all(key_at(__comp1, m) == key_at(work, m) for m in range(i))')]),
+        'iter:sorted_groups': dict(index='i', cases=['colocate_factors'], hints=[
+            ('group_is_one_of_the_groups', 'any(worker_group == worker_groups[g] for g in range(len(worker_groups)))'),
+            ('all_factors_placed_in_the_group', 'all(assignments[layer][key_at(work[layer], t)] in worker_group for t in range(len(work[layer])))'),
+            ('this_layer_in_one_group', 'layer_in_one_group(assignments[layer], worker_groups)'),
+            ('this_layer_on_one_worker', 'implies(colocate_factors, layer_on_one_worker(assignments[layer]))'),
+            ('earlier_other_layers_kept', 'all(implies(sorted_groups[m] != layer, ' + DONE + ') for m in range(i))'),
+            ('positions_of_this_layer_done', 'all(implies(sorted_groups[m] == layer, ' + DONE + ') for m in range(i + 1))'),
+        ], invariants=[
+            ('state', STATE),
+            ('every_visited_layer_is_a_layer', 'all(sorted_groups[m] in work for m in range(len(sorted_groups)))'),
+            ('every_layer_is_visited', 'all(any(sorted_groups[j] == key_at(work, m) for j in range(len(sorted_groups))) for m in range(len(work)))'),
+            ('placed_so_far', 'all(' + DONE + ' for m in range(i))'),
+        ]),
+        'iter:work[layer]': dict(index='j', invariants=[
+            ('state', STATE), ('this_layer', 'layer in work and min_worker in worker_group'),
+            ('earlier_layers_kept', 'all(implies(sorted_groups[m] != layer, ' + DONE + ') for m in range(i))'),
+            ('placed_prefix', 'all(assignments[layer][key_at(work[layer], t)] == min_worker for t in range(j))')]),
+        'iter:factors#1': dict(index='j', invariants=[
+            ('state', STATE), ('this_layer', 'layer in work'),
+            ('earlier_layers_kept', 'all(implies(sorted_groups[m] != layer, ' + DONE + ') for m in range(i))'),
+            ('placed_prefix', 'all(assignments[layer][factors[t][0]] in worker_group for t in range(j))')]),
+        'iter:assignments': dict(index='i', invariants=[]),
+        'iter:assignments[layer]': dict(index='j', invariants=[]),
+    },
     modifies=[],
 )
